@@ -135,6 +135,34 @@ def sites(prog):
             def f(p, path=path):
                 _get(p, path)["x"] = "undefinedZq9"
             yield ("undefined-name", "reference to %s" % node["x"], f)
+        if e == "asg":
+            consts = [(d_["x"], d_["t"]) for d_ in prog["top"] if d_.get("d") == "var" and d_.get("const") and d_["t"] in SAME]
+            for cx, ct in consts[:2]:
+                def f(p, path=path, cx=cx, ct=ct):
+                    n = _get(p, path)
+                    n["x"] = cx
+                    n["v"] = copy.deepcopy(SAME[ct])
+                yield ("assignment-to-constant", "assignment turned into %s := <value of its type>" % cx, f)
+        if e == "ret" and path and path[0] == "funs":
+            rt = prog["funs"][path[1]]["rt"]
+            if isinstance(rt, str) and rt in WRONG:
+                def f(p, path=path, w=WRONG[rt][0]):
+                    _get(p, path)["v"] = copy.deepcopy(w)
+                yield ("wrong-return-type", "value of a return statement in %s" % prog["funs"][path[1]]["name"], f)
+        if e == "dcall" and node["dom"].get("d") == "base" and not node.get("unqual"):
+            di = node["dom"]["i"]
+            dm = prog["doms"][di - 1]
+            if not dm["pcat"]:
+                same_cat = [k + 1 for k, o in enumerate(prog["doms"]) if not o["pcat"] and o["cat"] == dm["cat"] and k + 1 != di]
+                def f(p, path=path, di=di):
+                    _get(p, path)["unqual"] = True
+                    p["dimports"] = [di]
+                yield ("control-unqualified-export", "%s$%s used unqualified with the domain imported" % (node["op"], dm["name"]), f)
+                if same_cat:
+                    def f(p, path=path, di=di, other=same_cat[0]):
+                        _get(p, path)["unqual"] = True
+                        p["dimports"] = [di, other]
+                    yield ("ambiguous-export", "%s used unqualified with two domains of its category imported" % node["op"], f)
         if e == "asg" and prog["funs"]:
             def f(p, path=path):
                 n = _get(p, path)
